@@ -848,7 +848,10 @@ Interval<To_Boundary, To_Info>::mul_assign(const From1& x, const From2& y) {
                                  LOWER, f_lower(x), f_info(x),
                                  UPPER, f_upper(y), f_info(y));
     if (gt(LOWER, to_lower, to_info, LOWER, tmp, tmp_info)) {
-      to_lower = tmp;
+      // Copy the boundary together with its properties
+      // (it may be infinite and/or open).
+      to_info.clear_boundary_properties(LOWER);
+      Boundary_NS::assign(LOWER, to_lower, to_info, LOWER, tmp, tmp_info);
       rl = tmp_r;
     }
     tmp_info.clear();
@@ -859,7 +862,10 @@ Interval<To_Boundary, To_Info>::mul_assign(const From1& x, const From2& y) {
                                  LOWER, f_lower(x), f_info(x),
                                  LOWER, f_lower(y), f_info(y));
     if (lt(UPPER, upper(), to_info, UPPER, tmp, tmp_info)) {
-      upper() = tmp;
+      // Copy the boundary together with its properties
+      // (it may be infinite and/or open).
+      to_info.clear_boundary_properties(UPPER);
+      Boundary_NS::assign(UPPER, upper(), to_info, UPPER, tmp, tmp_info);
       ru = tmp_r;
     }
   }
